@@ -340,15 +340,9 @@ def F_rules(ctx, rule="F"):
         # the poll_fn(closure).collect().await in `par`; the join await must dominate it
         for (pb, bb, si, st) in (fl.closure_sites().get(cb.id, []) if par is not cb else []):
             site = (pb, bb)
-        join_aw = []
-        for a in awaits(par):
-            if a.operand["k"] == "const":
-                continue
-            d = get_defs(par).unique_full(a.operand["pl"]["l"])
-            if d and d[0] == "call" and callee_path(d[3]) in ("futures::future::poll_fn", "std::future::poll_fn") and \
-                    "join" in str(d[3]["sp"].get("macro", "")):
-                join_aw.append(a)
-        ok3 = bool(join_aw) and site is not None and join_aw[0].ready_bb is not None and par.dominates(join_aw[0].ready_bb, site[1])
+        from rules_term import join_sites
+        join_aw = [js for js in join_sites(ctx, par) if js["ready_bb"] is not None]
+        ok3 = bool(join_aw) and site is not None and par.dominates(join_aw[0]["ready_bb"], site[1])
         ctx.check(ok3, rule + "3", "drain-after-join|%s" % key, m.where(par, site[1]) if site else m.where(par),
                   "the RESULT receiver is drained only after the join of queuer and scheduler completed (every started future has finished)",
                   "the RESULT receiver is polled before / without the join having completed")
@@ -499,11 +493,21 @@ def F4_adapter(ctx, rule, b):
 
 def track_fn(ctx):
     """the crate-local function that takes the READY receiver and an InterruptibilityState"""
+    cands = []
     for f in ctx.fb.fns.values():
         ins = [i["s"] for i in f["inputs"]]
         if any("mpsc::Receiver<" in s for s in ins) and any("InterruptibilityState" in s for s in ins):
-            return f
-    return None
+            cands.append(f)
+    # the one that wraps the stream itself (others merely pass the receiver and the state on)
+    own = []
+    for f in cands:
+        for b in ctx.fb.bodies.values():
+            if b.root == f["id"] and any(callee_path(t) == "interruptible::InterruptibleStreamExt::interruptible_with" for _, t in b.calls()):
+                own.append(f)
+                break
+    if len(own) == 1:
+        return own[0]
+    return cands[0] if len(cands) == 1 else None
 
 
 def I_rules(ctx, rule="I"):
@@ -933,6 +937,28 @@ def O5(ctx, rule="O5"):
         ctx.unverifiable(rule, "floor", "-", "expected >= 4 StreamOutcome::new call sites on the streaming paths, found %d" % n_new)
 
 
+def lifted_guards(ctx, b, bb):
+    """[(body, switch_bb, discr expr, values)] guards of block bb in b, plus --
+    when b is (the coroutine of) a closure that a private higher-order helper
+    calls -- the guards of that call inside the helper."""
+    fl = ctx.model.flow
+    out = [(b, sb, de, vals) for sb, de, vals in cond_guards(b, bb)]
+    x = b
+    hops = 0
+    while x is not None and hops < 3:
+        hops += 1
+        cl = x if x.kind == "closure" else (ctx.fb.bodies.get(x.parent) if x.parent else None)
+        if cl is None or cl.kind != "closure":
+            break
+        sites = fl.internal_callback_sites(cl)
+        if not sites:
+            break
+        for (hb, hbb, ht) in sites:
+            out += [(hb, sb, de, vals) for sb, de, vals in cond_guards(hb, hbb)]
+        x = sites[0][0]
+    return out
+
+
 def O6(ctx, rule="O6"):
     """Every dequeued id is handed to the caller: in each per-item body the
     call of the user's function is control dependent only on the dequeued
@@ -957,17 +983,17 @@ def O6(ctx, rule="O6"):
                 ctx.cover(rule, b.id)
                 bad = []
                 lr = loop_region(ctx, b, bb)
-                for sb, de, vals in cond_guards(b, bb):
-                    if (b.blocks[sb]["term"].get("sp") or {}).get("desugar") == "Await":
+                for gb, sb, de, vals in lifted_guards(ctx, b, bb):
+                    if (gb.blocks[sb]["term"].get("sp") or {}).get("desugar") == "Await":
                         continue
-                    if lr is not None and lr.get("switch_bb") == sb:
+                    if gb is b and lr is not None and lr.get("switch_bb") == sb:
                         continue
                     ex = strip_refs(de)
                     if ex.kind == "discr":
-                        srcs = sources_of_expr(ctx, b, strip_refs(ex[1]))
+                        srcs = sources_of_expr(ctx, gb, strip_refs(ex[1]))
                         if srcs and m.is_ready_item(srcs) and "1" in vals:
                             continue
-                    bad.append(fmt_expr(ex, b))
+                    bad.append(fmt_expr(ex, gb))
                 ctx.check(not bad, rule, "handed-out|%s" % short(b.id), m.where(b, bb),
                           "the user's function is called for every id dequeued from the ready stream (only guard: the dequeued Option is Some)",
                           "the call of the user's function is additionally guarded by %s: a dequeued id, already recorded as processed, can be skipped" % bad[:3])
@@ -1031,10 +1057,10 @@ def O3b(ctx, rule="O3b"):
             ung = []
             for dbb in sorted(set(dec_blocks)):
                 some_guard = False
-                for sb, de, vals in cond_guards(b, dbb):
+                for gb, sb, de, vals in lifted_guards(ctx, b, dbb):
                     ex = strip_refs(de)
                     if ex.kind == "discr" and "1" in vals:
-                        srcs_ = sources_of_expr(ctx, b, strip_refs(ex[1]))
+                        srcs_ = sources_of_expr(ctx, gb, strip_refs(ex[1]))
                         if srcs_ and m.is_ready_item(srcs_):
                             some_guard = True
                 if not some_guard:
@@ -1073,41 +1099,68 @@ def O4(ctx, rule="O4"):
                 bx = fb.bodies[bid]
                 if bx.kind == "fn" and has_cf_aggs(bx) and any("std::result::Result<" in bx.locals[i]["s"] for i in range(1, bx.arg_count + 1)):
                     b = bx
+        from rules_build import path_conditions
+        fin = str(st_names.index("Finished")) if "Finished" in st_names else "?"
+
+        def tag_of_switch(sb):
+            d = get_defs(b).unique_full(b.blocks[sb]["term"]["discr"].get("pl", {}).get("l", -1))
+            if d and d[0] == "stmt" and d[3]["rv"]["k"] == "discr":
+                ty = d[3]["rv"]["pl"]["ty"]
+                if "StreamOutcomeState" in ty:
+                    return "state"
+                if ty.startswith("std::result::Result"):
+                    return "result"
+            return None
         conts = []
-        breaks = []
+        kinds = set()
+        problems = []
+        n_break = 0
         for kind, dbb, si, x in get_defs(b).of(0):
             if kind != "stmt" or x["rv"]["k"] != "agg" or x["rv"].get("def") != "std::ops::ControlFlow":
                 continue
-            gd = {}
-            for sb, vals in guards_of(b, dbb):
-                d = get_defs(b).unique_full(b.blocks[sb]["term"]["discr"].get("pl", {}).get("l", -1))
-                if d and d[0] == "stmt" and d[3]["rv"]["k"] == "discr":
-                    ty = d[3]["rv"]["pl"]["ty"]
-                    tag = "state" if "StreamOutcomeState" in ty else ("result" if ty.startswith("std::result::Result") else None)
-                    if tag:
-                        listed = [v for v, _ in b.blocks[sb]["term"]["targets"]]
-                        gd[tag] = (sorted(vals), listed)
+            sym_bb = {}
+            pcs = path_conditions(b, dbb, sym_bb=sym_bb)
+            if not pcs:
+                problems.append("cannot enumerate the paths to %s" % b.loc(dbb))
+                continue
+            # per path: which Result arm and which state value lead here
+            res_vals, st_vals = set(), set()
+            for pc in pcs:
+                rv_, sv_ = "?", "any"
+                for sym, v in pc.items():
+                    tags = {tag_of_switch(sb) for sb in sym_bb.get(sym, ())}
+                    if "result" in tags:
+                        listed = [vv for sb in sym_bb[sym] for vv, _ in b.blocks[sb]["term"]["targets"]]
+                        rv_ = v if v != "otherwise" else ("1" if listed == ["0"] else ("0" if listed == ["1"] else "otherwise"))
+                    if "state" in tags:
+                        if v == "otherwise":
+                            listed = {vv for sb in sym_bb[sym] for vv, _ in b.blocks[sb]["term"]["targets"]}
+                            sv_ = "not:" + ",".join(sorted(listed))
+                        else:
+                            sv_ = v
+                res_vals.add(rv_)
+                st_vals.add(sv_)
             if x["rv"]["variant"] == "Continue":
-                conts.append((gd, fl.sources_operand(b, x["rv"]["ops"][0])))
+                conts.append((sorted(res_vals), sorted(st_vals)))
+                if not (res_vals == {"0"} and st_vals == {fin}):
+                    problems.append("Continue is produced for result arm(s) %s and state(s) %s" % (sorted(res_vals), sorted(st_vals)))
             else:
-                breaks.append((gd, x["rv"]["ops"][0]))
-        fin = str(st_names.index("Finished")) if "Finished" in st_names else "?"
-        okc = len(conts) == 1 and conts[0][0].get("result", ([None],))[0] == ["0"] and conts[0][0].get("state", ([None],))[0] == [fin]
-        # breaks: one under Err (payload = the error tuple), one under Ok with state != Finished
-        okb = len(breaks) == 2
-        kinds = set()
-        for gd, op in breaks:
-            if gd.get("result", ([None],))[0] == ["1"]:
-                srcs = fl.sources_operand(b, op)
-                kinds.add("err" if srcs else "err?")
-            elif gd.get("result", ([None],))[0] == ["0"] and "state" in gd and fin not in gd["state"][0]:
-                e_ = strip_refs(expr_operand(b, op))
-                if e_.kind == "agg" and e_[1] == "tuple" and len(e_[4]) == 2 and \
-                        strip_refs(e_[4][1]).kind == "call" and strip_refs(e_[4][1])[1].endswith("Vec::<T>::new"):
-                    kinds.add("not-finished")
-        ctx.check(okc and okb and kinds == {"err", "not-finished"}, rule, "control-map|%s" % e["name"], where,
+                n_break += 1
+                op = x["rv"]["ops"][0]
+                if res_vals == {"1"}:
+                    kinds.add("err" if fl.sources_operand(b, op) else "err?")
+                elif res_vals == {"0"} and fin not in st_vals and "any" not in st_vals and not any(sv.startswith("not:") and fin not in sv[4:].split(",") for sv in st_vals):
+                    e_ = strip_refs(expr_operand(b, op))
+                    if e_.kind == "agg" and e_[1] == "tuple" and len(e_[4]) == 2 and strip_refs(e_[4][1]).kind in ("call", "agg") and \
+                            (strip_refs(e_[4][1]).kind != "call" or strip_refs(e_[4][1])[1].endswith(("Vec::<T>::new", "std::default::Default::default"))):
+                        kinds.add("not-finished")
+                    else:
+                        problems.append("Break under Ok + unfinished state carries `%s`" % fmt_expr(e_, b))
+                else:
+                    problems.append("Break is produced for result arm(s) %s and state(s) %s" % (sorted(res_vals), sorted(st_vals)))
+        ctx.check(len(conts) == 1 and n_break == 2 and kinds == {"err", "not-finished"} and not problems, rule, "control-map|%s" % e["name"], where,
                   "Ok + Finished -> Continue(outcome); Ok + other state -> Break((outcome, [])); Err(x) -> Break(x)",
-                  "control mapping differs: Continue sites %s, Break kinds %s" % ([c[0] for c in conts], sorted(kinds)))
+                  "control mapping differs: Continue sites %s, Break kinds %s %s" % (conts, sorted(kinds), problems[:3]))
     if n4 < 1:
         ctx.unverifiable(rule, "floor", "-", "no control wrapper (entry point returning ControlFlow) found")
 
